@@ -77,6 +77,9 @@ PathTrees(c, alg, k) ==
             [key  |-> TreeKey(alg, k.params[i].otsT, k.params[i].lmsT, sp[i].I, sp[i].seed),
              tree |-> GetTree(c, alg, k.params[i].otsT, k.params[i].lmsT, sp[i].I, sp[i].seed)]])
 
+(* a note: a parameter list RFC 8554 allows was refused because its signatures exceed 65535 bytes *)
+LongSigNote(levels) == [kind |-> "long_signature_refused", exp |-> "ok", got |-> "err", levels |-> levels]
+
 NoPanic(e) == IF e.res = "panic" THEN <<Verdict("panic", "ok|err", e.panic)>> ELSE <<>>
 
 (* ======================================================================= *)
@@ -95,7 +98,8 @@ JudgeKeygen(e, c) ==
             tkey  == TreeKey(alg, params[1].otsT, params[1].lmsT, top.I, top.seed)
             tree  == GetTree(c, alg, params[1].otsT, params[1].lmsT, top.I, top.seed)
             exp   == SpecKeygenWith(alg, params, seed, tree)
-            inLim == WithinLimits(params)
+            repr  == Representable(n, params)
+            inLim == WithinLimits(params) /\ repr
             auxIn == B(e.aux_in)
             h     == Height(params[1].lmsT)
             auxV  == IF e.has_aux /\ IsFreshAux(auxIn) /\ e.res = "ok" THEN
@@ -106,7 +110,8 @@ JudgeKeygen(e, c) ==
                              ELSE <<>>)
                      ELSE <<>>
             v == IF ~inLim THEN        \* beyond the build limits: refused with an error (C14)
-                     (IF e.res = "err" THEN <<>> ELSE <<Verdict("keygen_beyond_limits", "err", e.res)>> \o NoPanic(e))
+                     (IF e.res = "err" THEN (IF repr THEN <<>> ELSE <<LongSigNote(Len(params))>>)
+                      ELSE <<Verdict("keygen_beyond_limits", "err", e.res)>> \o NoPanic(e))
                  ELSE IF e.res = "ok" THEN CmpBytes("keygen_sk", exp.sk, e.sk) \o CmpBytes("keygen_pk", exp.pk, e.pk) \o auxV
                  ELSE <<Verdict("keygen_result", "ok", e.res)>> \o NoPanic(e)
         IN  [v |-> v, c |-> IF inLim /\ e.res = "ok" THEN CachePut(c, <<[key |-> tkey, tree |-> tree]>>) ELSE c]
@@ -170,6 +175,7 @@ JudgeSign(e, c) ==
         key == B(e.key)
         msg == B(e.msg)
         usable == SignOk(alg, key) /\ WithinLimits(ParseKey(alg, key).params)
+                  /\ Representable(N(alg), ParseKey(alg, key).params)
     IN  IF usable /\ Light(e) /\ e.plan = "accept" THEN [v |-> JudgeSignLight(e), c |-> c]
         ELSE IF ~usable THEN
             (* malformed / wiped / exhausted / out-of-range key, or parameters beyond the build limits: *)
@@ -295,7 +301,7 @@ JudgeLifetime(e) ==
              IF T >= 64 THEN <<>>                                \* value left open for tall lists (C13)
              ELSE IF ~CtrInRange(k.ctr, hs) THEN
                   (IF isErr THEN <<>> ELSE <<Verdict("lifetime_bad_counter", "err", e.res)>>)
-             ELSE IF ~WithinLimits(k.params) THEN
+             ELSE IF ~WithinLimits(k.params) \/ ~Representable(N(alg), k.params) THEN
                   (IF isErr THEN <<>> ELSE <<Verdict("lifetime_beyond_limits", "err", e.res)>>)
              ELSE CmpVal("lifetime_result", "ok", e.res)
                   \o (IF e.res = "ok" THEN CmpBytes("lifetime_value", BvToBytes(Lifetime(k.ctr, hs)), e.val) ELSE <<>>)
